@@ -1,12 +1,12 @@
-\* C10 design-level check: no transport loss; every interleaving of <= MaxCalls calls
+\* C10 design-level check with Ping deadlines expiring (init stalled) in every state of a Ping
 CONSTANTS MaxCalls = 3
-  Ops = {"ping", "open", "delete", "exec"}
+  Ops = {"ping", "delete", "exec"}
   AllowDestroy = FALSE
   AllowCrash = FALSE
   FixEatKill = TRUE
   ReapOnRefusal = TRUE
   FixDonePrio = TRUE
-  AllowDeadline = FALSE
+  AllowDeadline = TRUE
   DeadlineBreaks = TRUE
 SPECIFICATION SpecLive
 INVARIANTS NoDesync InitAlive OneAnswer PingOk LostCallsFail ExecAnswers NoOrphan ReapedAtServe
